@@ -3,10 +3,9 @@
     A case is a scenario of one of the harness sub-targets (mode `nopanic`) together with what the
     real code did. Where the generator knows the abstract input of a modelled stage, the scenario
     carries it and [agree] compares the model's outcome (class, count, panic site's function) with
-    the implementation's; otherwise the scenario is opaque and only the monitor applies.
-    The [fixed] flag of a scenario says which shape of the stage the inventory found in the tree
-    (the panic site of the finding present, or repaired); it is computed from the source by the
-    translator, never from the implementation's behaviour. *)
+    the implementation's; otherwise the scenario is opaque and only the monitor applies. The models are
+    the present (repaired) ones; a tree that falls back to a historical shape disagrees with them and
+    its panic site is not in the table. *)
 From Coq Require Import List Bool Arith NArith ZArith String Ascii Lia.
 From PKO Require Import NoPanic NoPanicProofs.
 Import ListNotations.
@@ -17,19 +16,15 @@ Local Open Scope string_scope.
 Inductive obs := ObsOk (n : N) | ObsErr | ObsPanic (f : string).
 
 Inductive scen :=
-| ScCollector (fixed : bool) (phases : list string) (objs : list pobj)
+| ScCollector (phases : list string) (objs : list pobj)
 | ScMapConditions (mappings : list (string * string)) (obj : list (string * json))
-| ScTemplateConditions (fixed : bool) (gen : Z) (obj : list (string * json))
-| ScTemplateSource (fixed : bool) (destination : string)
-| ScOCI (fixed : bool) (evs : list tar_event)
+| ScTemplateConditions (gen : Z) (obj : list (string * json))
+| ScTemplateSource (destination : string)
+| ScOCI (evs : list tar_event)
 | ScOwnerAnno (teardown : bool) (desired : anno_state) (actual : option anno_state)
 | ScOpaque.
 
 Definition case := (scen * obs)%type.
-
-(** a repaired stage returns an error where the present one panics *)
-Definition repaired {A} (x : outcome A) : outcome A := match x with Panic _ => Err | o => o end.
-Definition shape {A} (fixed : bool) (x : outcome A) : outcome A := if fixed then repaired x else x.
 
 Definition count {A} (x : outcome (list A)) : outcome N :=
   match x with Ok l => Ok (N.of_nat (List.length l)) | Err => Err | Panic s => Panic s end.
@@ -46,11 +41,11 @@ Definition source_item (destination : string) : outcome unit :=
 
 Definition model (sc : scen) : option (outcome N) :=
   match sc with
-  | ScCollector fixed phases objs => Some (shape fixed (render_and_collect phases objs))
+  | ScCollector phases objs => Some (render_and_collect phases objs)
   | ScMapConditions mappings obj => Some (count (map_conditions mappings obj))
-  | ScTemplateConditions fixed gen obj => Some (shape fixed (count (template_conditions gen obj)))
-  | ScTemplateSource fixed d => Some (shape fixed (bind (source_item d) (fun _ => Ok 1%N)))
-  | ScOCI fixed evs => Some (shape fixed (from_oci evs 0))
+  | ScTemplateConditions gen obj => Some (count (template_conditions gen obj))
+  | ScTemplateSource d => Some (bind (source_item d) (fun _ => Ok 1%N))
+  | ScOCI evs => Some (from_oci evs 0)
   | ScOwnerAnno teardown desired actual => Some (bind (phase_owner_reads teardown desired actual) (fun _ => Ok 0%N))
   | ScOpaque => None
   end.
@@ -58,11 +53,11 @@ Definition model (sc : scen) : option (outcome N) :=
 (** the function a panic at a modelled site shows first on the stack *)
 Definition stack_name (s : site_id) : string :=
   match s with
-  | S_col_panic => "packagerender.phaseCollector.AddObjects"
-  | S_ot_cond_type | S_ot_cond_status | S_ot_cond_reason | S_ot_cond_message =>
+  | S_col_panic | S_v0_col_panic => "packagerender.phaseCollector.AddObjects"
+  | S_v0_ot_cond_type | S_v0_ot_cond_status | S_v0_ot_cond_reason | S_v0_ot_cond_message =>
       "objecttemplate.updateStatusConditionsFromOwnedObject"
-  | S_ot_destination0 => "objecttemplate.copySourceItem"
-  | S_imp_hdr => "packageimport.FromOCI"
+  | S_ot_destination0 | S_v0_ot_destination0 => "objecttemplate.copySourceItem"
+  | S_v0_imp_hdr => "packageimport.FromOCI"
   | S_bx_a_getOwnerReferences_panic => "ownerhandling.(*OwnerStrategyAnnotation).getOwnerReferences"
   | _ => "(site not expected to be reached)"
   end.
@@ -101,21 +96,14 @@ Definition monitor (c : case) : bool := match snd c with ObsPanic _ => false | _
 
 Definition judge (c : case) : bool * bool := (agree c, monitor c).
 
-(** inputs a validator (present or to be added) lets through *)
+(** the only stage of the model that can still panic is the annotation owner strategy (boxcutter, open
+    finding): its inputs are well-formed if every owners annotation read is absent or a JSON list of references *)
 Definition wellformed (sc : scen) : bool :=
   match sc with
-  | ScCollector fixed _ objs => fixed || forallb (fun o => condmap_ok (o_condmap o)) objs
-  | ScMapConditions _ _ => true
-  | ScTemplateConditions fixed _ obj => fixed || conditions_wellformed obj
-  | ScTemplateSource fixed d => fixed || negb (String.eqb d "")
-  | ScOCI fixed evs => fixed || no_tar_error evs
   | ScOwnerAnno teardown desired actual =>
       (teardown || anno_wellformed desired) && match actual with Some a => anno_wellformed a | None => true end
-  | ScOpaque => true
+  | _ => true
   end.
-
-Lemma repaired_no_panic {A} (x : outcome A) : is_panic (repaired x) = false.
-Proof. destruct x; reflexivity. Qed.
 
 Lemma monitor_obs_of x sc : is_panic x = false -> monitor (sc, obs_of x) = true.
 Proof. destruct x; cbn; [reflexivity|reflexivity|discriminate]. Qed.
@@ -126,68 +114,25 @@ Proof. destruct x as [a| |s]; intros H; try reflexivity. exfalso. now apply (H s
 Lemma bind_ok_panic {A} (x : outcome A) (n : N) s : bind x (fun _ => Ok n) = Panic s -> x = Panic s.
 Proof. destruct x; cbn; intros H; try discriminate. now injection H as ->. Qed.
 
-(** Soundness of the monitor for the model: on well-formed scenarios the model's own outcome
-    satisfies the monitor, i.e. the modelled stages do not panic. *)
+Lemma count_panic {A} (x : outcome (list A)) s : count x = Panic s -> x = Panic s.
+Proof. destruct x; cbn; intros H; try discriminate. now injection H as ->. Qed.
+
+(** Soundness of the monitor for the model: the model's own outcome satisfies the monitor - for every
+    scenario of the package pipeline, mapConditions, the ObjectTemplate controller and the OCI import
+    without any hypothesis, for the owner strategy on well-formed annotations. *)
 Theorem monitor_sound : forall sc x, wellformed sc = true -> model sc = Some x -> monitor (sc, obs_of x) = true.
 Proof.
-  intros sc x Hw Hm. apply monitor_obs_of.
-  destruct sc as [fixed phases objs|mappings obj|fixed gen obj|fixed d|fixed evs|teardown desired actual|];
-    cbn in Hm; try discriminate; injection Hm as <-; cbn in Hw.
-  - destruct fixed; cbn [shape]; [apply repaired_no_panic|]; cbn [orb] in Hw.
-    apply not_panic_is_panic. intros s H. apply collector_partial in H as [_ H].
-    apply existsb_exists in H as (o & Ho & Hb). rewrite forallb_forall in Hw. rewrite (Hw o Ho) in Hb. discriminate.
-  - apply not_panic_is_panic. intros s H. unfold count in H.
-    destruct (map_conditions mappings obj) eqn:E; try discriminate. injection H as ->. now apply map_conditions_total in E.
-  - destruct fixed; cbn [shape]; [apply repaired_no_panic|]; cbn [orb] in Hw.
-    apply not_panic_is_panic. intros s H. unfold count in H.
-    destruct (template_conditions gen obj) eqn:E; try discriminate. injection H as ->.
-    now apply (template_conditions_total_if_wellformed gen obj Hw) in E.
-  - destruct fixed; cbn [shape]; [apply repaired_no_panic|]; cbn [orb] in Hw.
-    apply not_panic_is_panic. intros s H. apply bind_ok_panic in H. unfold source_item in H.
-    destruct d as [|c d']; [discriminate Hw|]. destruct (negb (Ascii.eqb c ".")); discriminate.
-  - destruct fixed; cbn [shape]; [apply repaired_no_panic|]; cbn [orb] in Hw.
-    apply not_panic_is_panic. intros s. now apply oci_total_without_read_error.
-  - apply not_panic_is_panic. intros s H.
-    apply bind_ok_panic in H. rename H into E.
-    apply owner_annotation_partial in E as [_ [[-> Hd]|(a & -> & Ha)]]; cbn in Hw.
+  intros sc x Hw Hm. apply monitor_obs_of. apply not_panic_is_panic. intros s H.
+  destruct sc as [phases objs|mappings obj|gen obj|d|evs|teardown desired actual|];
+    cbn in Hm; try discriminate; injection Hm as <-.
+  - now apply collector_total in H.
+  - apply count_panic in H. now apply map_conditions_total in H.
+  - apply count_panic in H. now apply template_conditions_total in H.
+  - apply bind_ok_panic in H. destruct d as [|c d']; cbn in H; [discriminate|].
+    destruct (negb (Ascii.eqb c ".")); discriminate.
+  - now apply oci_total in H.
+  - apply bind_ok_panic in H. cbn in Hw.
+    apply owner_annotation_partial in H as [_ [[-> Hd]|(a & -> & Ha)]]; cbn in Hw.
     + rewrite Hd in Hw. discriminate.
     + rewrite Ha in Hw. now rewrite andb_false_r in Hw.
-Qed.
-
-(** the explicit repaired models of NoPanic.v are the present ones with the panic turned into an error *)
-Theorem fixed_models_are_repairs :
-  (forall phases objs, render_and_collect_fixed phases objs = repaired (render_and_collect phases objs))
-  /\ (forall evs files, from_oci_fixed evs files = repaired (from_oci evs files))
-  /\ (forall k sm ex d ok, copy_source_item_fixed k sm ex d ok = repaired (copy_source_item k sm ex d ok)).
-Proof.
-  repeat split.
-  - intros phases objs. unfold render_and_collect_fixed, render_and_collect.
-    destruct (validators_accept phases objs); cbn; [|reflexivity].
-    destruct (forallb (fun o => condmap_ok (o_condmap o)) objs) eqn:E.
-    + destruct (collector_total_if_validated phases objs E) as [n ->]. reflexivity.
-    + destruct (collect phases objs) as [n| |s] eqn:C; cbn; try reflexivity.
-      exfalso. unfold collect, add_objects in C.
-      destruct (add_objects_from objs (seq 0 (List.length objs)) []) as [l| |s] eqn:A; cbn in C; try discriminate.
-      clear C n. assert (G : forall idxs acc l, add_objects_from objs idxs acc = Ok l ->
-                              forall i, In i idxs -> forall o, nth_error objs i = Some o -> condmap_ok (o_condmap o) = true).
-      { induction idxs as [|j rest IH]; intros acc l' H i Hi o Ho; [contradiction|]. cbn in H.
-        unfold index_or in H. destruct (nth_error objs j) as [oj|] eqn:Ej; cbn in H; [|discriminate].
-        destruct (parse_condmap (o_condmap oj)) as [m| |] eqn:P; try discriminate.
-        destruct Hi as [->|Hi]; [|now apply (IH _ _ H i Hi o Ho)].
-        assert (oj = o) by congruence. subst. apply parse_condmap_ok_iff. eauto. }
-      assert (T : forallb (fun o => condmap_ok (o_condmap o)) objs = true).
-      { apply forallb_forall. intros o Ho. apply In_nth_error in Ho as [i Hi].
-        apply (G _ _ _ A i); [|assumption]. apply in_seq. assert (i < List.length objs) by (apply nth_error_Some; congruence). lia. }
-      congruence.
-  - induction evs as [|e rest IH]; intros files; cbn.
-    + destruct (N.eqb files 0); reflexivity.
-    + destruct e as [p body_ok|]; [|reflexivity].
-      destruct p as [[|]| |]; destruct body_ok; try reflexivity; apply IH.
-  - intros k sm ex d ok. unfold copy_source_item_fixed. destruct d as [|c d'].
-    + unfold copy_source_item. destruct (relaxed_jsonpath k sm) as [r| |s] eqn:E; cbn; try reflexivity.
-      * destruct ex as [value|]; [|reflexivity].
-        destruct value; cbn; try reflexivity. destruct l as [|x [|y t]]; reflexivity.
-      * now apply relaxed_jsonpath_no_panic in E.
-    + destruct (copy_source_item k sm ex (String c d') ok) as [u| |s] eqn:E; cbn; try reflexivity.
-      apply template_source_partial in E as [_ E]. discriminate.
 Qed.
